@@ -146,8 +146,15 @@ def main(run, tier):
                    required='optimised construction writes lextab_* and yacctab_* modules', replayed=True)
     else:
         run.discharged('tables.generated_modules_exist', 'E2/tables', 'exec', 0.0, detail=tabs)
-    fresh = es5.Parser(lex_optimize=False, yacc_optimize=False, lextab='calmjs.parse.parsers.vf_lextab_inmem',
-                       yacctab='calmjs.parse.parsers.vf_yacctab_inmem')
+    try:
+        fresh = es5.Parser(lex_optimize=False, yacc_optimize=False, lextab='calmjs.parse.parsers.vf_lextab_inmem',
+                           yacctab='calmjs.parse.parsers.vf_yacctab_inmem')
+        run.discharged('tables.in_memory_parser_builds', 'E2/tables', 'exec', 0.0)
+    except BaseException as e:
+        why = 'Parser(lex_optimize=False, yacc_optimize=False) cannot be built: %s: %s' % (type(e).__name__, str(e)[:200])
+        run.failed('tables.in_memory_parser_builds', 'E2/tables', 'construct', dict(error=repr(e)[:300]), observed=why,
+                   required='the parser gives the same result with optimisation disabled (ply validates rules and tokens only in that mode)', replayed=True)
+        return
     compare_views(run, 'cached vs in-memory', dict(lexer_view(cached), **parser_view(cached)), dict(lexer_view(fresh), **parser_view(fresh)))
     # stale modules: tamper the generated lextab and yacctab, regenerate with the helper from unchanged sources
     lexfile = os.path.join(pdir, es5.lextab.rsplit('.', 1)[1] + '.py')
@@ -221,7 +228,7 @@ def main(run, tier):
     g = core.G()
     corpus = gen.corpus(g, depth2=(tier == 'thorough'))
     progs = [gen.render(t, ' ') for _, t in corpus] + [gen.render(t, '\n') for _, t in corpus[::4]] + list(gen.EXTRA_PROGRAMS)
-    progs += ['x = 017;', 'a = /re/g;', 'var = ;', '"abc', 'a\n++b']
+    progs += ['x = 017;', 'a = /re/g;', 'var = ;', '"abc', 'a\n++b', '#!/usr/bin/env node\nvar a = 1;\n', '#! x', '@', 'a # b', '\\u0061 = 1', '/* open', "'open"]
     rw = walkers.ReprWalker()
     n = nfail = 0
 
